@@ -157,7 +157,7 @@ def run(ctx, prog, res):
     #     rule cannot be expressed as plain ranges): a stop that depends on anything else - a count, a size - moves between
     #     two passes, and the second pass merges what the first left
     if nfn:
-        ALLOWED_EXIT = re.compile(r"^(discr\((Peekable::peek|Iterator::next|::next)\(.*\)\)|(PartialEq::eq|PartialEq::ne|::eq|::ne)\(.*\.operator, .*Fallback.*\)|discr\(normalize::ruleseq_to_selector\(.*\)\))$")
+        ALLOWED_EXIT = re.compile(r"^(discr\((Peekable::peek|Peekable::next_if|Peekable::next_if_eq|Iterator::next|::next)\(.*\)\)|(PartialEq::eq|PartialEq::ne|::eq|::ne)\(.*\.operator, .*Fallback.*\)|discr\(normalize::ruleseq_to_selector\(.*\)\))$")
         # loop blocks: blocks on a cycle through the peek call
         peeks = [bb for bb, t in nfn.calls() if (t.get("callee") or {}).get("name") == "peek"]
         loop = set()
